@@ -5,12 +5,12 @@
    before each read and carried with the block, the first non-header block taken at offset 0),
    [consume]/[trace]/[fsb_after]/[pfsb_after] (decoder.Next shifting pOffset/cOffset, the two
    accessors), [seek] (data[offset:] as frames).  Spec: C09/Spec.v.  A block's objects are the ones
-   it yields under the scanner's skip flags and filters, so blocks emptied by skip flags are frames
-   with no objects; the theorems hold for arbitrary object lists per block. *)
+   it yields under the scanner's skip flags and filters, so blocks emptied by skip flags or by
+   Filter* functions are frames with no objects (the harness empties blocks both ways); the theorems hold for arbitrary object lists per block. *)
 From Coq Require Import ZArith List Bool Arith Lia.
 From Verif Require Import Framing.Model Framing.Valid Framing.Proofs Framing.Bytes C06.Spec C06.Proofs
                           C06.ProofsBytes C06.Bridge
-                          C09.Spec C09.Proofs.
+                          C09.Spec C09.Proofs C09.ProofsTrees.
 Import ListNotations.
 Open Scope Z_scope.
 
@@ -58,7 +58,7 @@ Print Assumptions C09_resume.
    frame-level scan that [C09_resume] speaks of (Framing/Bytes.v: prefix decoding, io.ReadFull on
    bytes, proto.Unmarshal as arbitrary functions of the bytes). *)
 Theorem C09_resume_bytes :
-  forall (T : Type) (parse_hdr : list Z -> hdr) (parse_blob : list Z -> blobp T) v
+  forall (T : Type) (parse_hdr : list Z -> hdr) (parse_blob : btype -> list Z -> blobp T) v
          (bfs : list bframe) (j : nat),
   Forall (aligned parse_hdr) bfs -> Forall (fun bf => 0 <= bf_pfx bf) bfs ->
   b_scan parse_hdr parse_blob v (skipn (length (encode (firstn j bfs))) (encode bfs)) =
@@ -84,11 +84,49 @@ Print Assumptions C09_stop_and_resume_loses_nothing.
 (* The theorems above take a block's objects as a function of the block (and the skip flags).  That is
    justified by layer L1 (theories/Pbf): the outcome of decoding a block's message tree does not depend
    on the state of the decoder that does it, so the fresh decoder of the second scanner returns what the
-   worker of the first scan returned. *)
+   worker of the first scan returned ... *)
 Theorem C09_block_outcome_state_independent : forall c st1 st2 m,
   decode_tree c st1 m = decode_tree c st2 m.
 Proof. exact decode_tree_state_independent. Qed.
 Print Assumptions C09_block_outcome_state_independent.
+
+(* ... and composed with the framing theorems: "a new scanner yields the same elements".  The same
+   bytes are described twice: [fs1] as the workers of the first scan decode them (every data payload
+   is what a worker in SOME decoder state makes of the block's message tree), [fs2] as the decoders
+   of the resumed scanner do (same tree, any other state, e.g. the fresh one); framing fields,
+   encodings and header payloads are those of the bytes.  Stop the first scan after ANY k objects:
+   the second scanner started at the reported offset ends without error, and k' <= k objects of the
+   first scan followed by what the SECOND scanner's decoders produce are exactly the objects the
+   first scan's workers would have produced: nothing skipped, nothing corrupted. *)
+Theorem C09_stop_and_resume_on_trees :
+  forall c (fs1 fs2 : list (frame Verif.Pbf.Model.obj)) (k : nat),
+  Forall2 (same_block c) fs1 fs2 ->
+  valid_file fs1 = true -> (k <= length (objs_of fs1))%nat ->
+  let all := objs_of fs1 in
+  let off := fsb_after (scan current fs1 (total_size fs1)) k in
+  exists rest k',
+    seek off fs2 = Some rest /\ (k' <= k)%nat /\
+    out (scan current rest (total_size fs2 - off)) = Done /\
+    firstn k' all ++ objects (scan current rest (total_size fs2 - off)) = all.
+Proof. exact stop_and_resume_on_trees. Qed.
+Print Assumptions C09_stop_and_resume_on_trees.
+
+Theorem C09_resume_on_trees :
+  forall c (fs1 fs2 : list (frame Verif.Pbf.Model.obj)) (j : nat),
+  Forall2 (same_block c) fs1 fs2 -> valid_file fs1 = true ->
+  let off := start_of fs1 j in
+  exists rest,
+    seek off fs2 = Some rest /\
+    objects (scan current rest (total_size fs2 - off)) =
+      (if off =? 0 then objs_of fs1 else objs_of (skipn j (data_frames fs1))) /\
+    out (scan current rest (total_size fs2 - off)) = Done.
+Proof. exact resume_on_trees. Qed.
+Print Assumptions C09_resume_on_trees.
+
+(* That the offset reaches Next together with the objects of ITS block when several decoders run
+   concurrently is proved on the pipeline LTS of property C02 (Pipeline/ProofsPos.v, stated in
+   Properties/C02.v as C02_pair_carries_own_position / C02_taken_pair_is_own_block); in the
+   sequential model below the pairing holds by construction of [blocks_loop]. *)
 
 (* the complete scan of a valid stream, with the offsets the blocks carry *)
 Theorem C09_scan_valid : forall (T : Type) (fs : list (frame T)),
